@@ -103,7 +103,7 @@ Case decode(Tape &t, long sweep)
     c.act[i].action = kind;
     c.act[i].timeout = gen_timeout(t, c);
   }
-  c.pre = (int) t.weighted({ 6, 2, 2 });
+  c.pre = (int) t.weighted({ 6, 2, 2, 2 });  // 3: a wait(0) whose waitpid is interrupted (EINTR), then destroy
   if (c.pre == 1 && c.self_exit_after == model::T_INF) c.pre = 2;
   static const int64_t epochs[] = { 1000000, 1, 1700000000000LL, 2147483000LL, 2199023255000LL, 4102444800000LL };
   c.epoch = epochs[t.pick(6)];
@@ -281,8 +281,14 @@ CaseResult run_case(Tape &t, long sweep)
   w.advance_to(t_start + c.stop_after);
   bool reaped = false;
   int cached = -1;
+  bool interrupted_wait = false;
   if (c.pre != 0) {
+    if (c.pre == 3) vs_fail_nth(VS_WAITPID, 0);
     int r0 = c.via_cxx ? cxx->wait(reproc::milliseconds(c.pre == 1 ? REPROC_INFINITE : 0)).first : reproc_wait(ch.p, c.pre == 1 ? REPROC_INFINITE : 0);
+    if (c.pre == 3) {
+      vs_fail_nth(-1, -1);
+      interrupted_wait = r0 < 0 && r0 != REPROC_ETIMEDOUT;
+    }
     if (r0 >= 0) {
       reaped = true;
       cached = r0;
@@ -382,6 +388,7 @@ CaseResult run_case(Tape &t, long sweep)
   if (reaped) res.cls("destroy-on-reaped");
   if (all_noop) res.cls("default-policy");
   if (c.via_cxx) res.cls("via-cxx-destructor");
+  if (interrupted_wait) res.cls("destroy-after-failed-wait");
   if (c.deadline) res.cls("with-deadline");
   if (!w.trouble.empty()) {
     res.kind = CaseResult::INCONCLUSIVE;
